@@ -40,14 +40,14 @@ def parseCmd (args : List String) : String :=
           -- the executable model appends to its accumulators (`acc ++ [c]`): quadratic in the length
           -- of a token / container. Beyond this size the case is decided by the oracles on the real
           -- code only (the theorems are about all sizes; the differential tie is bounded here)
-          if cs.length > 24000 then "skip" else showParse false (parseChars o cs false)
+          if cs.length > 4000000 then "skip" else showParse false (parseChars o cs false)
         | none => "bad-op"
       else if mode = "cherr" then match parseCps? inp with
         | some cs => showParse false (parseChars o cs true)
         | none => "bad-op"
       else if mode = "bytes" then match parseBytes? inp with
         | some bs =>
-          if bs.length > 24000 then "skip" else
+          if bs.length > 4000000 then "skip" else
           let d := utf8Dec bs
           showParse true (parseChars o d.1 d.2)
         | none => "bad-op"
